@@ -26,6 +26,9 @@ CONSTANTS CNodes,     \* cluster node ids (= origin ids, a subset of Nodes)
           WithBatch, WithBulk, WithRestart, WithPurge,
           NoDirect,     \* TRUE: no direct replication messages and no batches at all: repair exchanges do all the work
           WithTracker,  \* TRUE: the poller skips a peer whose keyspace change stamp equals the one of its last successful sync
+          SplitGetState, \* TRUE: the peer's GetState handler is two steps (read the change stamp, then serialize the state), other
+                         \* requests may reach the peer's keyspace actor in between
+          StampLast,    \* FALSE: the code's order (stamp first).  TRUE only to show that the other order breaks C01_TrackerFixpoint
           MaxSkew,
           EmitTrace, MinOpsToEmit
 
@@ -146,6 +149,7 @@ Lose(m) ==
 SyncClocks(n, p) == LET m == IF clk[n] > clk[p] THEN clk[n] ELSE clk[p] IN [clk EXCEPT ![n] = m, ![p] = m]
 
 GetState(n, p) ==
+  /\ ~SplitGetState
   /\ rep[<<n, p>>].phase = "idle"
   /\ exch < MaxExch
   /\ WithTracker => trk[<<n, p>>] # chg[p]       \* the poll says p's keyspace changed since the last sync
@@ -154,6 +158,32 @@ GetState(n, p) ==
   /\ clk' = SyncClocks(n, p)                   \* request and reply carry the clocks' stamps (register_ts on both sides)
   /\ UNCHANGED <<node, ops, net, queue, done, chg, trk, seen, dups, now>>
   /\ Log([a |-> "getstate", n |-> n, p |-> p])
+
+\* replication_impl.rs, Handler<GetState>: `keyspace.send(LastUpdated)` and `keyspace.send(Serialize)` are two requests to
+\* the peer's keyspace actor; a mutation may be handled between them.  The stamp is read first, so what the poller will
+\* remember as synchronised is never newer than the state it was handed.
+ReadStamp(n, p) ==
+  /\ SplitGetState
+  /\ rep[<<n, p>>].phase = "idle"
+  /\ exch < MaxExch
+  /\ WithTracker => trk[<<n, p>>] # chg[p]
+  /\ exch' = exch + 1
+  /\ rep' = [rep EXCEPT ![<<n, p>>] = [phase |-> "stamped", fresh |-> TRUE, lu |-> chg[p], snap |-> node[p].st]]
+  /\ clk' = SyncClocks(n, p)
+  /\ UNCHANGED <<node, ops, net, queue, done, chg, trk, seen, dups, now>>
+  /\ Log([a |-> "readstamp", n |-> n, p |-> p])
+
+TakeState(n, p) ==
+  LET r == rep[<<n, p>>]
+  IN /\ r.phase = "stamped"
+     /\ rep' = [rep EXCEPT ![<<n, p>>] = [phase |-> "got", fresh |-> r.fresh,
+                                          snap |-> IF StampLast THEN r.snap ELSE node[p].st,
+                                          lu |-> IF StampLast THEN chg[p] ELSE r.lu]]
+     \* the reply carries the peer's clock; the request carried the caller's (when it was sent - taking the later reading
+     \* here only leaves out schedules, a model time is a lower bound for what a node may issue next)
+     /\ clk' = SyncClocks(n, p)
+     /\ UNCHANGED <<node, ops, net, queue, done, chg, trk, seen, dups, exch, now>>
+     /\ Log([a |-> "takestate", n |-> n, p |-> p])
 
 DiffStep(n, p) ==
   LET r == rep[<<n, p>>]
@@ -246,7 +276,7 @@ Next ==
   \/ \E n \in CNodes, d \in BOOLEAN, ks \in KeySets, t \in Times : Issue(n, d, ks, t)
   \/ \E n \in CNodes : BatchTick(n)
   \/ \E m \in net : Deliver(m, FALSE) \/ Deliver(m, TRUE) \/ Lose(m)
-  \/ \E p \in Pairs : GetState(p[1], p[2]) \/ DiffStep(p[1], p[2]) \/ RemovalHalf(p[1], p[2])
+  \/ \E p \in Pairs : GetState(p[1], p[2]) \/ ReadStamp(p[1], p[2]) \/ TakeState(p[1], p[2]) \/ DiffStep(p[1], p[2]) \/ RemovalHalf(p[1], p[2])
                       \/ Fetch(p[1], p[2]) \/ ApplyModified(p[1], p[2]) \/ Finish(p[1], p[2])
   \/ \E n \in CNodes : Restart(n) \/ PurgeAt(n)
   \/ TickTime
